@@ -23,6 +23,9 @@ LOADER = "buffers::Buffer::from_bytes"
 INT_SIZE = {"u8": 1, "i8": 1, "u16": 2, "i16": 2, "u32": 4, "i32": 4, "u64": 8, "i64": 8, "usize": 8, "isize": 8, "u128": 16, "i128": 16}
 
 
+_FACTS = None
+
+
 def affine(e, depth=0):
     """({atom: coef}, const) of an integer expression, or None"""
     if depth > 20:
@@ -53,13 +56,30 @@ def affine(e, depth=0):
     if k == "call" and e[1].split("::")[-1] == "saturating_sub" and len(e[2]) == 2:
         # equal to a - b whenever the subtraction does not saturate (it saturates only for a record-only file)
         return affine(("bin", "Sub", e[2][0], e[2][1]), depth + 1)
-    if k == "call" and e[1].split("::")[-1] == "len":
-        return ({"len(%s)" % show(e[2][0]).replace("&", "").replace("*", "").strip("()"): 1}, 0)
+    if (k == "call" and e[1].split("::")[-1] == "len") or k == "len":
+        # the length of a constant (SAUCE_COMMENT_ID.len()) is a number
+        arg0 = e[2][0] if k == "call" else e[1]
+        x = arg0
+        while isinstance(x, tuple) and x and x[0] in ("ref", "deref", "cast"):
+            x = x[2] if x[0] == "cast" else x[1]
+        if isinstance(x, tuple) and x and x[0] in ("def", "static", "const") and _FACTS is not None:
+            c = _FACTS.consts.get(x[1]) if isinstance(x[1], str) else None
+            if c is not None:
+                if "slice_len" in c:
+                    return ({}, c["slice_len"])
+                ty = _FACTS.types[c["ty"]] if "ty" in c else None
+                while ty is not None and ty["k"] == "ref":
+                    ty = _FACTS.types[ty["e"]]
+                if ty is not None and ty["k"] == "array" and ty.get("len") is not None:
+                    return ({}, ty["len"])
+        return ({"len(%s)" % show(arg0).replace("&", "").replace("*", "").strip("()"): 1}, 0)
     return ({show(e): 1}, 0)
 
 
 def run(chk):
+    global _FACTS
     f = F.load()
+    _FACTS = f
     g = CallGraph(f)
     ip = Interproc(f, g)
     chk.rules = ["R-SAUCE-AFFINE", "R-SAUCE-CUT", "R-SAUCE-EXACT"]
